@@ -4,6 +4,7 @@ go 1.21
 
 require (
 	github.com/gorilla/css v1.0.1
+	github.com/gorilla/mux v1.8.1
 	github.com/gorilla/websocket v1.5.3
 	github.com/inbucket/inbucket/v3 v3.0.0
 	github.com/jhillyerd/enmime/v2 v2.0.0
@@ -18,7 +19,6 @@ require (
 	github.com/cjoudrey/gluahttp v0.0.0-20201111170219-25003d9adfa9 // indirect
 	github.com/cosmotek/loguago v1.0.0 // indirect
 	github.com/gogs/chardet v0.0.0-20211120154057-b7413eaefb8f // indirect
-	github.com/gorilla/mux v1.8.1 // indirect
 	github.com/inbucket/gopher-json v0.2.0 // indirect
 	github.com/jaytaylor/html2text v0.0.0-20230321000545-74c2419ad056 // indirect
 	github.com/kelseyhightower/envconfig v1.4.0 // indirect
@@ -36,4 +36,4 @@ require (
 	golang.org/x/text v0.18.0 // indirect
 )
 
-replace github.com/inbucket/inbucket/v3 => /tmp/my/repo
+replace github.com/inbucket/inbucket/v3 => /repo
